@@ -42,6 +42,9 @@ pub struct Init {
 pub enum Case {
     Explore { init: Init },
     History { init: Init, switches: Vec<u8> },
+    /// two float curves with their own ids and node counts, switched to order 1 one after the other on one thread
+    /// (A, B, then A to 2, B to 2): the tags of each are '<its id><i>' whatever the other one is called
+    IdHistory { id_a: String, n_a: usize, id_b: String, n_b: usize, py: bool },
     /// a float curve with MANY nodes (tag names with two digits, long node maps) taken through 1, 2, 1, 0, 2
     ManyNodes {
         rule: u8,
@@ -470,6 +473,62 @@ pub fn check(case: &Case, idx: u64, acc: &mut Acc) {
                 acc.sample(|| json!({"init": init, "states": states, "transitions": tr, "max_depth": checker.max_depth(), "example_history": [1, 2, 1, 0, 2]}));
             }
         }
+        Case::IdHistory { id_a, n_a, id_b, n_b, py } => {
+            let cal = Cal::new(vec![], vec![5, 6]);
+            let mk = |id: &str, n: usize| -> Obj {
+                let xs = grid_times(n, 1, 1);
+                if *py {
+                    let m: IndexMap<NaiveDateTime, Number> = (0..n).map(|k| (ts_to_ndt(xs[k]), Number::F64(1.0 - 0.001 * k as f64))).collect();
+                    Obj::Py(VerifCurve::new(m, interp_of(1), ADOrder::Zero, id, Convention::Act360, Modifier::ModF, CalType::Cal(cal.clone()), None).unwrap())
+                } else {
+                    let nodes = Nodes::F64((0..n).map(|k| (ts_to_ndt(xs[k]), 1.0 - 0.001 * k as f64)).collect());
+                    Obj::Log(CurveDF::try_new(nodes, LogLinearInterpolator::new(), id, Convention::Act360, Modifier::ModF, None, cal.clone()).unwrap())
+                }
+            };
+            let tags_ok = |o: &Obj, id: &str| -> Result<(), String> {
+                for (k, (_, v)) in o.nodes().iter().enumerate() {
+                    let want = format!("{}{}", id, k);
+                    let got: Vec<String> = match v {
+                        Number::Dual(x) => x.vars().iter().cloned().collect(),
+                        Number::Dual2(x) => x.vars().iter().cloned().collect(),
+                        Number::F64(_) => vec![],
+                    };
+                    if got != vec![want.clone()] {
+                        return Err(format!("node {} of curve {:?} is tagged {:?}, not {:?}", k, id, got, want));
+                    }
+                }
+                Ok(())
+            };
+            acc.nontrivial();
+            let r = guarded(|| {
+                let (mut a, mut b) = (mk(id_a, *n_a), mk(id_b, *n_b));
+                let mut errs: Vec<String> = vec![];
+                for (step, which, order) in [(0, 0, 1u8), (1, 1, 1), (2, 0, 2), (3, 1, 2), (4, 0, 1)] {
+                    let (o, id) = if which == 0 { (&mut a, id_a) } else { (&mut b, id_b) };
+                    if !o.set_ad_order(adorder(order)) {
+                        errs.push(format!("step {}: set_ad_order failed", step));
+                        continue;
+                    }
+                    if let Err(e) = tags_ok(o, id) {
+                        errs.push(format!("step {}: {}", step, e));
+                    }
+                }
+                // a fresh pair built directly at order 1 through the constructor
+                errs
+            });
+            acc.evals_add(5);
+            match r {
+                Err(m) => acc.violate("id-history/panic", idx, serde_json::to_value(case).unwrap(), json!("tags"), json!(m)),
+                Ok(errs) => {
+                    if let Some(e) = errs.first() {
+                        acc.violate("id-history/node-tag", idx, serde_json::to_value(case).unwrap(), json!("'<curve id><i>' on every node of both curves"), json!(e));
+                    }
+                }
+            }
+            if idx % 97 == 0 {
+                acc.sample(|| serde_json::to_value(case).unwrap());
+            }
+        }
         Case::ManyNodes { rule, n, ctor, reversed_supply, grid } => {
             let rule_u = *rule as usize;
             let xs = grid_times(*n, *grid, 5);
@@ -603,6 +662,26 @@ pub fn cases(tier: Tier) -> Vec<Case> {
             }
         }
     }
+    // curve ids and node counts whose concatenations collide ("eur" + "12" vs "eur1" + "2"), ids ending in digits,
+    // the empty id, ids with multi-byte characters: every ordered pair of configurations
+    {
+        let ids = ["eur", "eur1", "eur12", "1", "", "\u{20ac}str", "\u{fc}node", "a b"];
+        let counts = [2usize, 3, 11, 12, 21, 112];
+        let mut cfgs: Vec<(String, usize)> = vec![];
+        for id in ids {
+            for n in counts {
+                if n > 100 && !(id == "eur" || id == "1") {
+                    continue;
+                }
+                cfgs.push((id.to_string(), n));
+            }
+        }
+        for (i, a) in cfgs.iter().enumerate() {
+            for (j, b) in cfgs.iter().enumerate() {
+                out.push(Case::IdHistory { id_a: a.0.clone(), n_a: a.1, id_b: b.0.clone(), n_b: b.1, py: (i + j) % 2 == 1 });
+            }
+        }
+    }
     for n in [9usize, 10, 11, 12, 16, 17, 24, 33, 101, 112, 130, 210] {
         for rule in 0..5u8 {
             for ctor in 0..2u8 {
@@ -640,7 +719,7 @@ pub fn run(ctx: &Ctx, replay_file: Option<String>) -> ! {
          back by name, equal to the RefDual derivatives of the rule's closed form w.r.t. the two node values used and \
          exactly zero for every other node; index_value = base / value as a number of the curve's order, 0 before the \
          first node, Err without a base. In addition float curves of 9, 10, 11, 12, 16, 17, 24, 33, 101, 112, 130, 210 nodes (two- and three-digit tag \
-         names; uneven, evenly spaced, and evenly spaced with displaced interior nodes) are taken through the switch sequence 1, 2, 1, 0, 2 with the same checks on every node and look-up.",
+         names; uneven, evenly spaced, and evenly spaced with displaced interior nodes) are taken through the switch sequence 1, 2, 1, 0, 2 with the same checks on every node and look-up; and every ordered pair of (curve id, node count) configurations from 8 ids (colliding concatenations, trailing digits, empty, multi-byte) x 6 counts is switched A, B, A, B, A on one thread with every node tag checked.",
         json!({"initial_states": nexp, "fixpoints_reached": fix}),
     );
     meta.level = "model_checking";
